@@ -244,10 +244,33 @@ func (eng *Engine) targets() []*ssa.Function {
 				continue
 			}
 		}
+		// loop-free helpers without a contract are verified in the context of each caller (inlined),
+		// not stand-alone for arbitrary arguments
+		if eng.contractFor(fn) == nil && len(findLoops(fn)) == 0 && !eng.isAPI(fn) {
+			continue
+		}
 		out = append(out, fn)
 	}
 	sort.Slice(out, func(i, j int) bool { return eng.relNameQ(out[i]) < eng.relNameQ(out[j]) })
 	return out
+}
+
+// isAPI: exported function, or exported method of an exported type
+func (eng *Engine) isAPI(fn *ssa.Function) bool {
+	if fn.Parent() != nil || fn.Object() == nil || !fn.Object().Exported() {
+		return false
+	}
+	if recv := fn.Signature.Recv(); recv != nil {
+		t := recv.Type()
+		if pt, ok := t.(*types.Pointer); ok {
+			t = pt.Elem()
+		}
+		if n, ok := types.Unalias(t).(*types.Named); ok {
+			return n.Obj().Exported()
+		}
+		return false
+	}
+	return true
 }
 
 type FnResult struct {
@@ -258,17 +281,19 @@ type FnResult struct {
 	Assumptions []string
 	Trusted     []string
 	Uncontr     []string
+	Bounded     []string
 	HasContract bool
 	Props       []string
 }
 
 func (eng *Engine) newFnCtx(fn *ssa.Function, fc *FuncContract) *FnCtx {
 	s := newScript()
-	fx := &FnCtx{eng: eng, top: fn, fc: fc, s: s, tm: newTypeMap(s), obNames: map[string]int{}, heapSort: map[string]string{},
-		assump: map[string]bool{}, uncontr: map[string]bool{}, trusted: map[string]bool{}, ghostFuncs: map[string]ghostFn{}}
+	fx := &FnCtx{eng: eng, top: fn, fc: fc, s: s, tm: newTypeMap(s), obNames: map[string]int{}, heapSort: map[string]string{}, heapType: map[string]types.Type{},
+		assump: map[string]bool{}, uncontr: map[string]bool{}, trusted: map[string]bool{}, bounded: map[string]bool{}, ghostFuncs: map[string]ghostFn{}}
 	if fn != nil {
 		fx.pkg = eng.pkgByPath[eng.pkgPathOf(fn)]
 	}
+	fx.tm.onHeapKey = func(k string, t types.Type) { fx.heapType[k] = t }
 	registerGhosts(fx)
 	return fx
 }
@@ -292,6 +317,7 @@ func (eng *Engine) verifyFunc(fn *ssa.Function) (res *FnResult) {
 		res.Assumptions = sortedKeys(fx.assump)
 		res.Trusted = sortedKeys(fx.trusted)
 		res.Uncontr = sortedKeys(fx.uncontr)
+		res.Bounded = sortedKeys(fx.bounded)
 	}()
 	if fc != nil && fc.Trusted {
 		res.Unsupported = "contract marked trusted (assumed, body not verified)"
@@ -370,7 +396,10 @@ func (eng *Engine) verifyLemma(l *Lemma) (res *FnResult) {
 	fx.entry = st.clone()
 	fx.allocEntry = st.alloc
 	t := fx.evalIn(l.E, map[string]SVal{}, st, st, nil).v.t
-	ob := &Obligation{Name: "lemma/" + l.Name, Kind: "lemma", Func: "lemma", Text: l.Text, Props: l.Props}
+	ob := &Obligation{Name: "lemma/" + l.Name, Kind: "lemma", Func: "lemma", Text: l.Text, Props: l.Props, MustSat: l.MustFail}
+	if l.MustFail {
+		ob.Kind = "canary"
+	}
 	ob.SMT = s.render(s.mark(), "true", t, "lemma "+l.Name+"\n"+l.Text, true)
 	fx.obs = append(fx.obs, ob)
 	return
